@@ -18,7 +18,7 @@ from ..util import calls_in, qual, formals, returns_of, raises_of, \
     raise_name, has_fact, bind
 from ..terms import Terms, V, match, show, lookup, presence, strip_new, \
     alternatives, subterms, owner_terms, is_none, reify, mk_cmp, \
-    bit_test, plain
+    bit_test, plain, stores
 
 MC = "rig.machine_control.machine_controller"
 CTRL = MC + ":MachineController"
@@ -128,6 +128,23 @@ def r1_tables(program, rep):
         return all(v in (("const", None), DIR) for v in vn) and \
             vp == [("attr", DIR, "opposite")]
 
+    # -- what the per-chip records are filed under ----------------------------------
+    # two nets with the same key but different masks are different entries:
+    # a record filed under the key alone merges them (or reports a bogus
+    # multi-source conflict)
+    K0 = T._comp(K, 0, 2)
+    for n_, st_, base_, key_, val_ in stores(T):
+        lkb = lookup(base_)
+        if lkb is None or lkb[1] != CHIP:
+            continue
+        kk = plain(key_)
+        if kk == plain(K0):
+            rep.bad("C10-R1", inst, "records keyed by the key alone",
+                    "the per-chip record of a net is filed under its key "
+                    "without the mask: nets with equal keys and different "
+                    "masks share one record - one of them gets no entry on "
+                    "the chip (or a multi-source error is raised for routes "
+                    "that do not conflict)", st_)
     # -- creation of a new (key, mask) on a chip ---------------------------------
     pairs = calls_in(fn, "InOutPair")
     if not pairs or not calls_in(fn, "RoutingTableEntry") or not any(
@@ -831,10 +848,49 @@ def _record_cut(folder, env, fn, rec, DATA, size):
     return False
 
 
+def r1_entry_ctor(program, rep):
+    """A RoutingTableEntry holds exactly the route, key, mask and sources it
+    is constructed with (copies into a set / frozenset are the same
+    values): the constructor is on the way of every entry of every table."""
+    ENT = "rig.routing_table.entries:RoutingTableEntry.__new__"
+    if not program.has(ENT):
+        raise AnalysisError("RoutingTableEntry has no __new__ of its own; "
+                            "that form is not analysed")
+    fn = program.get(ENT)
+    T = Terms(fn)
+    ps = formals(fn)          # cls, route, key, mask, sources
+    rets = [r for r in returns_of(fn) if r.value is not None]
+    if len(rets) != 1 or not isinstance(rets[0].value, ast.Call) or \
+            len(ps) != 5:
+        raise AnalysisError("RoutingTableEntry.__new__: construction of the "
+                            "tuple")
+    rn = T.cfg.node_of(rets[0])
+    args = [plain(T.term(a, rn)) for a in rets[0].value.args]
+    if len(args) != 5:
+        raise AnalysisError("RoutingTableEntry.__new__: construction of the "
+                            "tuple")
+
+    def same_values(t, p):
+        P = ("param", p)
+        return t == P or (t[0] in ("call", "callv") and t[1] in (
+            ("global", "set"), ("global", "frozenset"), ("global", "tuple"),
+            ("global", "list")) and t[2] == (P,))
+    for k, nm in enumerate(ps[1:], 1):
+        rep.check(same_values(args[k], nm), "C10-R1", qual(fn),
+                  "the entry's %s is the %s it was constructed with" % (
+                      nm, nm), construct="entry field %s" % nm,
+                  node=rets[0],
+                  fail="RoutingTableEntry stores %s as its %s, not the "
+                       "values it was given: entries built for a table "
+                       "(e.g. with a None source next to a link) are "
+                       "altered on the way" % (show(args[k])[:60], nm))
+
+
 def check(program, rep):
     program.module(MC)
     folder = Folder(program)
     rep.guard("C10-R1", r1_tables, program, rep)
+    rep.guard("C10-R1", r1_entry_ctor, program, rep)
     w = rep.guard(["C10-R2", "C10-R3"], r2_order, program, folder, rep)
     rep.guard("C10-R3", r3_layout, program, folder, rep, w)
     rep.guard("C10-R4", r4_readback, program, folder, rep)
